@@ -17,7 +17,7 @@ RULES = {
            'ordinal placement, torn reads, maxread 1..100000, 4 transports; driver history of expect/expect_exact/expect_list/'
            'read/readline/readlines/iteration/buffer assignment with seeded pattern lists, windows, timeouts. '
            'Oracle: after every primitive expect call, before+after+buffer (match) or before (TIMEOUT/EOF) == text pending '
-           'before the call + reads made during it. Ninth round: the fault kind interrupt (an exception from outside -- Ctrl-C, a raising signal handler -- abandons the call where it really waits: select/poll/recv/sleep/waitpid; the application goes on using the object) with the abandoned call judged like a cancelled awaited call (consumed nothing, what it read is pending); patterns of 73..1000 characters; negative timeouts other than -1 (held to conservation and a-pending-occurrence-wins only); compiled patterns of the other string type with flags of their own. Non-trivial: at least one call consumed >=1 read or a fault fired; '
+           'before the call + reads made during it. Ninth round: the fault kind interrupt (an exception from outside -- Ctrl-C, a raising signal handler -- abandons the call where it really waits: select/poll/recv/sleep/waitpid; the application goes on using the object) with the abandoned call judged like a cancelled awaited call (consumed nothing, what it read is pending); patterns of 73..1000 characters; negative timeouts other than -1 (held to conservation and a-pending-occurrence-wins only); compiled patterns of the other string type with flags of their own. Tenth round: runs take place at different clock readings (the present epoch, 2100, day one); positional argument forms; an occurrence whose look-ahead context is completed by a later read of the same call (constructed in 2 % of the runs); fdspawn over a terminal device set up by the application. Non-trivial: at least one call consumed >=1 read or a fault fired; '
            'distinct: by full trace digest',
     'C02': 'same runs, generator biased to colliding pattern lists with EOF/TIMEOUT markers interleaved. Oracle per text match: '
            'pattern i matches `after` where `before` ends in the searched window, match object agrees (span, groups, re), '
